@@ -113,10 +113,20 @@ pub fn drive_on(c: &DropCase, with_drops: bool, vectored: bool) -> Outcome {
                     } else {
                         insim::insim::Tiny { reqi: insim::identifiers::RequestId((attempt + 1) as u8), subt: insim::insim::TinyType::Ping }
                     };
-                    let w = framed.write(p).await;
+                    // every third of the application's calls is the other public entry point that puts a frame on the wire: a
+                    // handshake (an ISI) in the middle of the session
+                    let as_handshake = !c.user_none && attempt % 3 == 2;
+                    let isi = insim::insim::Isi { reqi: insim::identifiers::RequestId((attempt + 1) as u8), iname: "c19".into(), ..Default::default() };
+                    let w = if as_handshake { framed.handshake(isi.clone(), std::time::Duration::from_secs(5)).await } else { framed.write(p).await };
                     t2.push_event(Event::WriteReturned(format!("{:?}", w.is_ok())));
                     if w.is_ok() {
-                        user_frames.push(if c.user_none { vec![size_byte(&mode, 4), 3, 0, 0] } else { user_frame(&mode, attempt) });
+                        user_frames.push(if c.user_none {
+                            vec![size_byte(&mode, 4), 3, 0, 0]
+                        } else if as_handshake {
+                            Codec::new(mode.clone()).encode(&insim::Packet::Isi(isi)).expect("ISI encodes").to_vec()
+                        } else {
+                            user_frame(&mode, attempt)
+                        });
                         if was_dropped {
                             writes_after_drop += 1;
                         }
@@ -642,7 +652,7 @@ pub fn parts() -> Vec<Box<dyn DynPart>> {
 pub fn run(run: &mut Run) {
     run.rule = "The harness owns the schedule: a tokio connection over a scripted transport (read half: Pending / Ready with any \
         segmentation; write half: Pending / piecewise acceptance) is polled by hand on a paused-clock runtime, and at chosen poll indices \
-        a Pending read future is dropped and a fresh read started; optionally the application writes a frame of its own between reads (a ping, or a TINY_NONE - the very frame the connection uses as its reply). \
+        a Pending read future is dropped and a fresh read started; optionally the application puts a frame of its own on the wire between reads (write() of a ping or of a TINY_NONE - the very frame the connection uses as its reply -, or handshake() with an ISI). \
         Oracle: the delivered results equal those of the same script without drops (which itself must equal the C05 model); the \
         outgoing byte stream consists of whole frames, exactly one TINY_NONE per delivered keep-alive, application frames intact and in \
         order. Complete: every subset of the first 13 poll indices x every subset of application writes after the first 4 read attempts, for three small scripts x 2 modes; generated: sessions of all packet \
